@@ -7,7 +7,8 @@
    boundaries only shift `line`) is validated by the pairwise layout check, see DESIGN.md.
    Property theorems only; proofs in proofs/LexerProof.v, RadixProof.v. *)
 From DTR Require Import Prelude I64 Ast FramedMap Lexer Parser.
-From DTR.proofs Require Import LexerProof RadixProof.
+From DTR Require Import Generated GeneratedTables.
+From DTR.proofs Require Import LexerProof RadixProof TablesProof.
 From Coq Require Import String.
 Local Open Scope N_scope.
 
@@ -43,6 +44,21 @@ Proof. exact radix_value. Qed.
 (* the side condition of the insertion theorem is necessary: blank space inside a token splits it *)
 Example C20_blank_separates : lex_view (s2n "a b"%string) <> lex_view (s2n "ab"%string).
 Proof. vm_compute. discriminate. Qed.
+
+(* ---- T1: the scanner model was written for exactly the tokens and regular expressions of
+   src/lexer/token.rs (GeneratedTables.v is regenerated from it on every run) *)
+Theorem C20_lexer_regexes_are_the_source : gen_regexes =
+  [ ("Ident", "[A-Za-z_]([A-Za-z]|_|\d)*"); ("DecInt", "[1-9][0-9]*"); ("HexInt", "0[xX][0-9a-fA-F]+");
+    ("BinInt", "0[bB][01]+"); ("OctInt", "0[0-7]*"); ("WS", "[ \t\r\f]+"); ("Comment", "#[^\n]*") ]%string.
+Proof. exact regexes_pinned. Qed.
+Theorem C20_keywords_are_the_source : keywords = gen_keywords.
+Proof. exact keywords_pinned. Qed.
+Theorem C20_punctuation_is_the_source : forallb (fun p =>
+    match lex_one ((s2n (fst p) ++ [32%N])%list) with
+    | Some (Some k, w, r) => tk_beq k (snd p) && name_eqb w (s2n (fst p)) && name_eqb r [32%N]
+    | _ => false
+    end) gen_punct = true.
+Proof. exact punct_tokens_lexed. Qed.
 
 Check C20_blank_run_irrelevant.
 Print Assumptions C20_blank_run_irrelevant.
